@@ -733,6 +733,9 @@ func buildPDF(c *fw.Ctx, dir string, i int, base *pagegen.Page) pdfCase {
 	case bx == 1 && len(sps) == 2:
 		sps[0].Box = "zero"
 		c.Seen("pdf", "mediabox=degenerate-first-page")
+	case bx == 2:
+		sps[len(sps)-1].Box = "dangling"
+		c.Seen("pdf", "mediabox=unreadable (dangling reference)")
 	}
 	if mode.ScaleByCTM {
 		c.Seen("pdf", "scale-by-ctm")
